@@ -49,6 +49,11 @@ def cases(tier):
         for s in ss:
             for q in ss:
                 out.append(("matrix", backend, s, q, tier))
+        # an action left out of the configuration keeps the default roles ('a': the anonymous role), it does not become open
+        for x in ss:
+            out.append(("matrix", backend, "~", x, tier))
+            out.append(("matrix", backend, x, "~", tier))
+        out.append(("matrix", backend, "~", "~", tier))
         out.append(("roles", backend, "", "", tier))
     return out
 
@@ -96,11 +101,19 @@ def run_matrix(case):
     cid = "matrix|%s" % backend
     n = 0
     dump0 = pre_dump(backend)
+    actions = {}
+    if save != "~":
+        actions["save"] = save
+    if query != "~":
+        actions["query"] = query
+    label_s, label_q = save, query
+    save = "a" if save == "~" else save
+    query = "a" if query == "~" else query
     for ovname, ovpath in OVS.items():
-        cfg = {"authentication": {"enabled": True, "actions": {"save": save, "query": query}, "relay_urls": [RELAY_URL]},
+        cfg = {"authentication": {"enabled": True, "actions": dict(actions), "relay_urls": [RELAY_URL]},
                "output_validator": ovpath, "pubkey_whitelist": list(WHITELIST)}
         w = World(backend, config=cfg, storage_options={"stats_interval": 1e15}, message_timeout=1e300)
-        label0 = "save=%s|query=%s|ov=%s" % (save or "-", query or "-", ovname)
+        label0 = "save=%s|query=%s|ov=%s" % (label_s or "-", label_q or "-", ovname)
         try:
             c07.load_dump(w, dump0)
             for tname, spec in TOKENS.items():
@@ -282,7 +295,7 @@ def run_case(case):
 def coverage(tier, agg):
     ss = SUBSETS if tier == "thorough" else ["", "a", "r", "w", "rw"]
     return {
-        "rule": "matrix: save roles x query roles over %r (%d x %d configurations) x token roles {unauthenticated, a, r, w, rw, none} obtained by real "
+        "rule": "matrix: save roles x query roles over %r (%d x %d configurations, plus each action left unconfigured = default role 'a') x token roles {unauthenticated, a, r, w, rw, none} obtained by real "
                 "AUTH handshakes x {REQ, EVENT by two authors} x output validator {none, recipe whitelist, reject-one-author} on both backends; every "
                 "connection also holds a subscription, so each accepted EVENT exercises live delivery to every token; oracle: stored/broadcast iff "
                 "roles intersect save roles (else OK=false 'restricted', store and other transcripts unchanged), served iff roles intersect query "
